@@ -168,6 +168,7 @@ class FlowDT(DT):
         self.copies = 0
         self.yields: list[list] = []
         self._attr_cls_cache: dict = {}
+        self._const_memo: dict = {}
         self._is_gen: dict = {}
         self._attr_memo: dict = {}
 
@@ -299,6 +300,27 @@ class FlowDT(DT):
             return out                       # a generator is run eagerly: the list of what it yields
         return super().call_fi(fi, args)
 
+    def ev_Name(self, n, env):
+        v = super().ev_Name(n, env)
+        if isinstance(v, Sym) and v.path == n.id and n.id not in env and type(v) is Sym:
+            # a module-level constant whose defining expression the constant folder does not handle (frozenset(range(..)) - {..} ...):
+            # fold it with this evaluator; accepted only when the result is fully concrete (literals of the source)
+            fi = env.get("__fi__")
+            r = self.pm.resolve(fi.module, n.id) if fi is not None else None
+            if r and r[0] == "value":
+                key = (r[1][0].name, n.id)
+                if key not in self._const_memo:
+                    self._const_memo[key] = v
+                    try:
+                        import types
+                        got = self.ev(r[1][1], {"__fi__": types.SimpleNamespace(module=r[1][0].name, cls=None, short="<module>", is_static=False)})
+                        if _concrete_const(got):
+                            self._const_memo[key] = got
+                    except (Unsupported, NeedAtom, _Raise, AttributeError, TypeError):
+                        pass
+                return self._const_memo[key]
+        return v
+
     def ev_Yield(self, n, env):
         if not self.yields:
             raise Unsupported("yield outside a generator call")
@@ -400,7 +422,24 @@ class FlowDT(DT):
 
     @staticmethod
     def _generic_seq(it) -> bool:
-        return isinstance(it, (list, tuple)) and any(isinstance(e, Marker) for e in it)
+        """does the list hold elements that a generic iteration added?  (Every list in scope is bracketed when a generic iteration
+        begins; a list nothing was added to inside the brackets -- a literal table that is only read there -- is NOT generic)"""
+        if not isinstance(it, (list, tuple)):
+            return False
+        depth = 0
+        for e in it:
+            if isinstance(e, Marker):
+                depth += 1 if e.kind == "begin" else (-1 if depth else 0)
+            elif depth > 0:
+                return True
+        return False
+
+    @staticmethod
+    def _plain(it):
+        """a non-generic list without the (empty) brackets of generic iterations"""
+        if isinstance(it, (list, tuple)) and any(isinstance(e, Marker) for e in it):
+            return type(it)(e for e in it if not isinstance(e, Marker))
+        return it
 
     def _accumulators(self, env) -> list:
         seen = set()
@@ -409,8 +448,8 @@ class FlowDT(DT):
     def stmt(self, s, env):
         if isinstance(s, ast.For):
             it = self.concrete(self.ev(s.iter, env))
-            if self._generic_seq(it) and all(isinstance(x, Marker) for x in it):
-                it = []                                      # filled by a generic iteration that added nothing
+            if isinstance(it, (list, tuple)) and not self._generic_seq(it):
+                it = self._plain(it)                         # a literal list (or one filled by a generic iteration that added nothing)
             if isinstance(it, (list, tuple, range, dict)) and not self._generic_seq(it):
                 try:
                     for x in it:
@@ -653,6 +692,8 @@ class FlowDT(DT):
                 if isinstance(it, dict):
                     it = list(it)
                 copies = isinstance(n.elt, ast.Name) and isinstance(g.target, ast.Name) and n.elt.id == g.target.id and len(n.generators) == 1
+                if isinstance(it, (list, tuple)) and not copies and not self._generic_seq(it):
+                    it = self._plain(it)
                 if isinstance(it, (list, tuple, range)) and (copies or not self._generic_seq(it)):
                     for x in it:
                         if isinstance(x, Marker):         # a filtered copy of an accumulator keeps the brackets of its generic part
@@ -696,6 +737,10 @@ class FlowDT(DT):
 
     def binop(self, op, l, r, node):
         l, r = self.concrete(l), self.concrete(r)
+        if isinstance(op, (ast.Sub, ast.BitOr, ast.BitAnd, ast.BitXor)) and isinstance(l, tuple) and isinstance(r, tuple) and _concrete_const(l) and _concrete_const(r):
+            # set algebra of literal sets (sets are held as tuples)
+            keep = {ast.Sub: lambda x: x in l and x not in r, ast.BitOr: lambda x: True, ast.BitAnd: lambda x: x in l and x in r, ast.BitXor: lambda x: (x in l) != (x in r)}[type(op)]
+            return tuple(x for x in dict.fromkeys(l + r) if keep(x))
         if isinstance(op, (ast.Add, ast.Sub)) and (isinstance(l, Sym) or isinstance(r, Sym)):
             a, b = lin_of(l), lin_of(r)
             if a is not None and b is not None:
@@ -778,7 +823,7 @@ class FlowDT(DT):
                     if isinstance(step, int) and step > 0 and lin_of(start) is not None and lin_of(stop) is not None:
                         return SymIter("range", [start, stop, step], str(self.show(stop)))
                     return Sym("range(" + ", ".join(str(self.show(v)) for v in args) + ")")
-                args = [[] if self._generic_seq(a) and all(isinstance(x, Marker) for x in a) else a for a in args]     # a generic iteration that added nothing
+                args = [self._plain(a) if isinstance(a, (list, tuple)) and not self._generic_seq(a) else a for a in args]     # literal lists: without empty brackets
                 if nm == "enumerate":
                     start = kw.get("start", args[1] if len(args) > 1 else 0)
                     if isinstance(args[0], (list, tuple, range)) and isinstance(start, int) and not self._generic_seq(args[0]):
@@ -795,7 +840,7 @@ class FlowDT(DT):
                         return sorted(args[0]) if nm == "sorted" else list(reversed(args[0]))
                     return self.opaque_sym(nm, args, kw)
                 if nm == "frozenset":
-                    return tuple(args[0]) if args and isinstance(args[0], (list, tuple)) else (self.opaque_sym(nm, args) if args else ())
+                    return tuple(args[0]) if args and isinstance(args[0], (list, tuple, range)) else (self.opaque_sym(nm, args) if args else ())
                 if nm == "sum" and args and isinstance(args[0], (list, tuple)) and all(isinstance(x, (int, float)) for x in args[0]):
                     return sum(args[0])
                 if nm in ("abs", "round") and args and isinstance(args[0], (int, float)) and not kw and len(args) == 1:
@@ -815,7 +860,7 @@ class FlowDT(DT):
                     return self._gen_len(v)
                 if isinstance(v, SymIter) or self._generic_seq(v):
                     raise Unsupported("len of a sequence built by a generic iteration")
-                return len(v)
+                return len(self._plain(v))
             if nm in ("str", "int", "float") and bound is None and len(n.args) == 1 and not n.keywords:
                 v = self.concrete(self.ev(n.args[0], env))
                 if isinstance(v, Sym):
@@ -949,6 +994,14 @@ class FlowDT(DT):
         if got is not None and self.may_inline(got):
             return self.invoke(got, base, args, n, env, kw)
         return self.opaque_sym(f"{base.path}.{m}", args, kw, recv=base)
+
+
+def _concrete_const(v, depth: int = 0) -> bool:
+    if isinstance(v, (int, float, str, bytes, bool, type(None))):
+        return True
+    if isinstance(v, (tuple, list, range)) and depth < 4:
+        return all(_concrete_const(x, depth + 1) for x in v)
+    return False
 
 
 class _Lit(ast.expr):
